@@ -1,0 +1,98 @@
+//go:build verif
+
+package meta
+
+import (
+	"bytes"
+	"io"
+	"sort"
+
+	"github.com/gogo/protobuf/proto"
+	"github.com/hashicorp/raft"
+	internal "github.com/influxdata/influxdb/services/meta/internal"
+)
+
+// Thin exported wrappers for the external verification harness of property C07
+// (snapshot / restore / command validation). No behaviour of their own.
+
+// VerifSnap is an FSM snapshot as raft holds it between Snapshot() and Persist().
+type VerifSnap struct{ snap raft.FSMSnapshot }
+
+// Snapshot calls storeFSM.Snapshot.
+func (f *VerifFSM) Snapshot() (*VerifSnap, error) {
+	s, err := (*storeFSM)(f.s).Snapshot()
+	if err != nil {
+		return nil, err
+	}
+	return &VerifSnap{snap: s}, nil
+}
+
+// Data returns the metadata value the snapshot holds (not a copy).
+func (s *VerifSnap) Data() *Data { return s.snap.(*storeFSMSnapshot).Data }
+
+type verifSink struct {
+	bytes.Buffer
+	closed, cancelled bool
+}
+
+func (k *verifSink) ID() string    { return "verif" }
+func (k *verifSink) Close() error  { k.closed = true; return nil }
+func (k *verifSink) Cancel() error { k.cancelled = true; return nil }
+
+// Persist calls storeFSMSnapshot.Persist on an in-memory sink and returns the image.
+func (s *VerifSnap) Persist() ([]byte, error) {
+	k := &verifSink{}
+	if err := s.snap.Persist(k); err != nil {
+		return nil, err
+	}
+	s.snap.Release()
+	return k.Bytes(), nil
+}
+
+// Restore calls storeFSM.Restore on the image.
+func (f *VerifFSM) Restore(image []byte) error {
+	return (*storeFSM)(f.s).Restore(io.NopCloser(bytes.NewReader(image)))
+}
+
+// Publish calls store.snapshot(): the value the HTTP handlers hand to clients.
+func (f *VerifFSM) Publish() (*Data, error) { return f.s.snapshot() }
+
+// VerifValidateCommand calls validateCommand (the check of the /execute handler).
+func VerifValidateCommand(b []byte) error { return validateCommand(b) }
+
+// VerifEnvelope reports what the protobuf library makes of a command envelope:
+// whether proto.Unmarshal accepts it, the value of Type, and for every extension field
+// registered for internal.Command whether it is absent (0), present but undecodable (1)
+// or present and decodable (2). Fields are listed in increasing order.
+func VerifEnvelope(b []byte) (ok bool, typ int32, fields []int32, status []int) {
+	var cmd internal.Command
+	if err := proto.Unmarshal(b, &cmd); err != nil {
+		return false, 0, nil, nil
+	}
+	typ = int32(cmd.GetType())
+	m := proto.RegisteredExtensions(&cmd)
+	for f := range m {
+		fields = append(fields, f)
+	}
+	sort.Slice(fields, func(i, j int) bool { return fields[i] < fields[j] })
+	for _, f := range fields {
+		st := 0
+		if proto.HasExtension(&cmd, m[f]) {
+			st = 1
+			if v, err := proto.GetExtension(&cmd, m[f]); err == nil && v != nil {
+				st = 2
+			}
+		}
+		status = append(status, st)
+	}
+	return true, typ, fields, status
+}
+
+// VerifData returns store.snapshot() of a running service.
+func (s *Service) VerifData() (*Data, error) { return s.store.snapshot() }
+
+// VerifForceSnapshot makes raft take an FSM snapshot now (raft.Snapshot()).
+func (s *Service) VerifForceSnapshot() error { return s.store.raftState.snapshot() }
+
+// VerifIsLeader reports whether this service's raft node is the leader.
+func (s *Service) VerifIsLeader() bool { return s.store.isLeader() }
